@@ -1943,6 +1943,11 @@ class Parallel(Logger):
                 raise RuntimeError(msg)
             self._running = True
 
+        # Batches that were sliced ahead of time by a previous call that was
+        # aborted must not be dispatched by this one.
+        if hasattr(self, "_ready_batches"):
+            self._ready_batches = queue.Queue()
+
         # Counter to keep track of the task dispatched and completed.
         self.n_dispatched_batches = 0
         self.n_dispatched_tasks = 0
